@@ -85,6 +85,10 @@
 // genesis). All take arbitrary nonce / fee / gas so that invalid variants can
 // be produced.
 //
+// Runtimes (runtime.go): RuntimeID, RuntimeDescriptor, TxRegisterRuntime, ComputeNode
+// (an extra node of an existing entity), ExecutorCommit + TxExecutorCommit (finalizes a
+// round of a one-worker runtime), (*Replica).RuntimeState.
+//
 // Caveats: do not combine memory-only storage with PruneKeepN > 0 (the pruner
 // goroutine crashes in Badger's in-memory Sync); Restart before the first
 // commit re-runs InitChain. The signature chain context is a process-wide global in oasis-core.
